@@ -140,12 +140,12 @@ def exhaustive_docs(shard, nshards, tier, rng):
 def shard_fn(shard, nshards, seed, tier, exe, ndocs):
     rng = random.Random("%d/%d/c01" % (seed, shard))
     sh = core.Shard()
-    gen = DocGen(rng, max_depth=31, budget=60, nul_keys=0.02)
+    gen = DocGen(rng, max_depth=31, budget=60, nul_keys=0.02, big=True)
     cases, meta = [], {}
     per = ndocs // nshards
     for i in range(per):
         text, value = gen.document()
-        if len(text) > 4000:
+        if len(text) > 200000:
             continue
         cid = "%d.%d" % (shard, i)
         cases.append((cid, doc_cmds(text)))
